@@ -42,8 +42,18 @@ class ShadowTrajectory:
         self.R = np.array([Rt @ Rk for Rk in self.R])
         self._touch()
 
+    @staticmethod
+    def _rigid_part(T):
+        """[sR t; 0 1] -> [R t; 0 1]: what a similarity contributes when multiplied from the right
+        (P*T shifts the position by R_p*t and turns the orientation by R; s has nothing to act on)"""
+        T = np.array(T, dtype=float)
+        s = float(np.cbrt(np.linalg.det(T[:3, :3])))
+        T[:3, :3] = T[:3, :3] / s
+        return T
+
     def transform_right(self, T):
-        """P -> P*T (rigid T)"""
+        """P -> P*T (rigid T; of a similarity its rigid part)"""
+        T = self._rigid_part(T)
         Rt, tt = np.asarray(T)[:3, :3], np.asarray(T)[:3, 3]
         self.p = np.array([pk + Rk @ tt for Rk, pk in zip(self.R, self.p)])
         self.R = np.array([Rk @ Rt for Rk in self.R])
@@ -53,7 +63,7 @@ class ShadowTrajectory:
         """first pose kept, every relative motion D_i replaced by D_i*T"""
         if self.n == 0:
             return
-        T = np.asarray(T, dtype=float)
+        T = self._rigid_part(T)
         P = [rm.se3(Rk, pk) for Rk, pk in zip(self.R, self.p)]
         out = [P[0]]
         for i in range(self.n - 1):
